@@ -79,6 +79,7 @@ def run(ctx, rep):
     literal_conversions(F, rep)
     single_visit(F, rep)
     borrow_discipline(F, rep)
+    fallible_contract(F, rep)
     rep.extra["analysis_rounds"] = fl.rounds
     rep.extra["hand_assembled_option_unwraps_counted_not_judged"] = getattr(fl, "uncounted", 0)
     # K4 panics outside the clause: counted
@@ -318,3 +319,26 @@ def borrow_discipline(F, rep):
                key="C16.borrow|%s|%s|%s" % (mir.short(fp), pn, cn))
     rep.ob("C16.borrow", "no scope-stack mutator runs while a guard into the scope stack is alive (%d functions with guards, %d guards, %d mutators)" % (
         st["functions_with_guards"], st["guards_born"], st["mutators"]), "ok", "", None, key="C16.borrow|summary")
+
+
+def fallible_contract(F, rep):
+    """A conversion that is fallible by its own contract -- an `impl TryFrom / FromStr`, a function named `try_..` -- reports failure through its
+    result.  An explicit `unreachable!` / `panic!` / `todo!` / `unimplemented!` in its body is a case the author believed impossible while the
+    signature says the caller may hand it anything: on that input the compiler panics instead of reporting an error."""
+    import re as _re
+    n = 0
+    for f in F.crates["compiler"].fns:
+        topp = _re.sub(r"::\{closure#\d+\}", "", f.path)
+        last = topp.split("::")[-1]
+        if not (last.startswith("try_") or last in ("try_from", "try_into", "from_str")):
+            continue
+        n += 1
+        hits = []
+        for c in f.calls():
+            mc = c.t.get("mc") or []
+            if c.target is None and any(m in ("unreachable", "panic", "todo", "unimplemented") for m in mc) and not f.blocks[c.bb].get("cleanup"):
+                hits.append((next(m for m in mc if m in ("unreachable", "panic", "todo", "unimplemented")), c.span))
+        rep.ob("C16.fallible-contract", "%s reports every failure through its result (no explicit panic in its body)" % mir.short(topp),
+               "violated" if hits else "ok", "; ".join("%s!() at %s" % h for h in hits[:3]), f.span, fn=f.path,
+               key="C16.fallible-contract|%s" % f.path)
+    rep.floor("C16.fallible-contract functions fallible by name or trait", n, 10)
